@@ -664,6 +664,9 @@ func zzC14Carves(c *zzC14Call, fam string, s, e int64, cls int) {
 	}
 	vrt.Carve("C14-invalid-bounds-accepted", inv)
 	if fam == "substitute" {
+		// what remains of C14-invalid-bounds-accepted after its repair: the
+		// existing tests pin that a negative :start is clamped to 0
+		vrt.Carve("C14-substitute-negative-start-accepted", cls == zzC14BNegS)
 		// :count is decremented per element examined, not per substitution;
 		// 0 still substitutes once, a negative count means "all"
 		vrt.Carve("C14-substitute-count-per-examined", c.cntMode == 2 && s < e && c.count < e-s)
@@ -804,7 +807,10 @@ KF=[("C14-invalid-bounds-accepted","VerifC14Count",[0,1,0,0,0]),
     ("C14-subseq-shares-storage","VerifC14Subseq",[0,2]),
     ("C14-merge-not-stable","VerifC14Merge",[0,1,1,6]),
     ("C14-reduce-empty-and-key","VerifC14Reduce",[0,1,2]),
-    ("C14-key-multiple-values","VerifC14Find",[0,1,8,0,0])]
+    ("C14-key-multiple-values","VerifC14Find",[0,1,8,0,0]),
+    ("C14-substitute-negative-start-accepted","VerifC14Substitute",[0,1,0,0,0]),
+    ("C14-fill-bounds-equal-length","VerifC14Fill",[0,2]),
+    ("C14-reduce-empty-not-called","VerifC14Reduce",[0,1,0])]
 # the probe cases also run in the main run (region excluded): drop the same case from the regular quick lists
 for o in spec:
     o["cases"]["quick"]=[c for c in o["cases"]["quick"] if not any(e==o["entry"] and c==k for _,e,k in KF)]
